@@ -14,6 +14,8 @@ from . import tlc
 ROOT = os.path.dirname(os.path.dirname(os.path.abspath(__file__)))
 REPO = os.environ.get("LADIM_REPO", "/repo")
 GUARD = "BJORNAA_LADIM2_VERIF"
+# runs against a scratch copy (mutant experiments) must not overwrite the committed evidence
+OUT = ROOT if os.path.realpath(REPO) == "/repo" else os.path.join(os.environ.get("TMPDIR") or "/tmp", "lv_mutant_out")
 
 
 # ------------------------------------------------------------------------------------------------
@@ -179,7 +181,7 @@ class Report:
                 fresh.append(v)
         for fid, (fd, n) in known.items():
             out_lines.append(f"KNOWN-FINDING: property={self.pid} {fid}: {fd['text']} ({n} scenario(s) this run)")
-        rdir = os.path.join(ROOT, "replays", self.pid)
+        rdir = os.path.join(OUT, "replays", self.pid)
         if fresh:
             os.makedirs(rdir, exist_ok=True)
         seen = {}
@@ -216,8 +218,8 @@ class Report:
             cov["evaluations"] = max(cov["evaluations"], 1)
         ev = dict(property_id=self.pid, tier=self.tier, seed=self.seed, level=self.level, coverage=cov,
                   assumptions=self.assumptions, wall_s=round(time.time() - self.t0, 2), violations=nviol)
-        os.makedirs(os.path.join(ROOT, "evidence"), exist_ok=True)
-        with open(os.path.join(ROOT, "evidence", f"{self.pid}.json"), "w") as f:
+        os.makedirs(os.path.join(OUT, "evidence"), exist_ok=True)
+        with open(os.path.join(OUT, "evidence", f"{self.pid}.json"), "w") as f:
             json.dump(ev, f, indent=1, default=str)
 
 
